@@ -200,6 +200,7 @@ let handle = function
        | Err e -> "Err " ^ si e
        | Panic _ -> "Panic"
        | OutOfFuel -> "OutOfFuel")
+  | ["ctor"; m] -> String.concat "" (List.map b01 (c01_ctor (bytes_of_hex m)))
   | ["xfr1"; m] ->
       (match c01_xfr (bytes_of_hex m) with
        | Ok None -> "short"
